@@ -142,7 +142,7 @@ package object
 //@   modifies fs
 //@   reveals objBytes-def
 //@   requires [id] len(o.Hash) == 20 && o.Size == len(o.Data)
-//@   ensures [stored] {C01,C02,C03,C04} err == nil ==> stored(fs, rootGoitPath, o.Hash, o.Type, string(o.Data))
+//@   ensures [stored] {C01,C02,C03,C04,C16} err == nil ==> stored(fs, rootGoitPath, o.Hash, o.Type, string(o.Data))
 //@   ensures [frame] {C01,C03,C04} forall q string :: q != objPath(rootGoitPath, o.Hash) && q != objDir(rootGoitPath, o.Hash) ==> fs[q] == old(fs)[q]
 //@   ensures [dir] {C03} isDir(old(fs), objDir(rootGoitPath, o.Hash)) ==> isDir(fs, objDir(rootGoitPath, o.Hash))
 //@   ensures [kind] {C03,C02} err == nil && isKind(o.Type) ==> storedKind(fs, rootGoitPath, o.Hash) == o.Type
